@@ -3034,6 +3034,11 @@ impl<const RICE_MAX: u32, I: SignedInteger> FromBitStreamUsing for ResidualParti
                     .map(|_| {
                         let msb = r.read_unary::<1>()?;
                         let lsb = r.read_counted::<RICE_MAX, u32>(rice)?;
+                        // a residual is at most 32 bits wide: a longer
+                        // unary part would lose its high bits in the shift
+                        if msb > (u32::MAX >> u32::from(rice)) {
+                            return Err(Error::ResidualOverflow);
+                        }
                         let unsigned = (msb << u32::from(rice)) | lsb;
                         Ok::<_, Error>(if (unsigned & 1) == 1 {
                             -(I::from_u32(unsigned >> 1)) - I::ONE
